@@ -5,8 +5,8 @@ import json, sys
 CHECKS = {
  "C16": dict(
    level="exploration",
-   technique="differential testing against a documentation-derived reference field arithmetic: exhaustive over small prime fields, generated boundary/random operand pairs (proptest) for the three real primes, resource-limited subprocess probes for huge shift counts",
-   text="Every public operation of circom_algebra::modular_arithmetic is compared with an independent reference (u128 for small primes, BigUint for the real primes) written from the Circom operator documentation. Small prime fields are enumerated completely (all operand pairs, all 23 operations), the three real primes are sampled at boundary values and at random, and shift counts too large to evaluate in-process run in a subprocess under RLIMIT_CPU/RLIMIT_AS so that an unbounded computation is observed as a violation. Exhaustive on small fields, sampling on the real ones: 'held on everything explored', not a proof.",
+   technique="differential testing against a documentation-derived reference field arithmetic: exhaustive over small prime fields, generated boundary/random operand pairs (proptest) for the three real primes, resource-limited subprocess probes for huge shift counts and huge exponents",
+   text="Every public operation of circom_algebra::modular_arithmetic is compared with an independent reference (u128 for small primes, BigUint for the real primes) written from the Circom operator documentation. Small prime fields are enumerated completely (all operand pairs, all 23 operations), the three real primes are sampled at boundary values and at random, and shift counts too large to evaluate in-process as well as `**` with exponents from 10^7 up to p-1 run in a subprocess under RLIMIT_CPU/RLIMIT_AS (20 s, 2 GiB), where the result is compared with the reference and an unbounded computation is observed as a violation (the exponent probes run first; if one does not return, the in-process stage skips exponents above 2^16 instead of blocking in them). Exhaustive on small fields, sampling on the real ones: 'held on everything explored', not a proof.",
    note="Trusts the reference semantics in harness/src/field.rs (cross-checked u128 vs BigUint at start-up) and num-bigint-dig for the big reference; operands are canonical field elements; an error result is accepted only for zero divisors and for shift counts above the bit size.",
    design="DESIGN.md §3 C16"),
  "C06": dict(
@@ -73,7 +73,7 @@ CHECKS = {
    level="exploration",
    technique="fuzzing of the real release binary with generated inputs: raw bytes / token soup, grammar-derived programs (every production, semantically undisciplined and semantically valid), token-level mutations of valid programs, small inputs with one deeply nested construct (16 shapes), x random option sets; oracle = clean-termination predicate under CPU and memory limits (proptest tapes with shrinking; libFuzzer in-process targets in the thorough tier)",
    text="The real CLI is executed as a subprocess (RLIMIT_CPU, RLIMIT_AS, cleared environment) on generated projects of 1-3 files with random supported options. A run is clean iff it exits by itself with status 0 or 1, its last stdout line is the summary, the status matches the summary and stderr shows no panic, stack overflow or allocation failure. Evidence reports how many inputs were rejected by the lexer/parser, by the desugarer, or reached the analysis stage, and the histogram of report ids produced. All committed reproducers are replayed under all three curves. The include projects of C19 (cycles over relative paths and through -L directories, directory arguments, symlinks) are run with only termination and exit status judged. A nesting-depth domain feeds small inputs with one construct nested 10-400 deep (it found the exponential blow-up on nested array indices, repaired). One recorded known finding (stack overflow on a statement with several thousand chained operators) is reported as KNOWN-FINDING; it is identified by the input shape (a statement with >= 1000 operators), so any other stack overflow is a violation.",
-   note="Modest size = files <= 16 KiB, nesting depth <= 8 in the grammar domains and <= 400 in the nesting-depth domain. Hang = more than 120 CPU-seconds (480 on re-run; 30/120 for the nesting-depth inputs), far above the documented 2 x 10 s time box. Absence of crashes cannot be established by sampling.",
+   note="Modest size = files <= 16 KiB, nesting depth <= 8 in the grammar domains and <= 400 in the nesting-depth domain. Hang = more than 30 CPU-seconds and, on the re-run every limit hit gets, more than 120 (nesting-depth inputs 10/40; thorough tier 120/480 and 30/120); the slowest run on the unchanged tree takes under a second (coverage.budgets.slowest_binary_run_wall_ms) and the documented time box is 2 x 10 s. The quick tier stops starting new cases after a soft deadline of 600 s (never reached on the unchanged tree, recorded in coverage.budgets when it is), so that a tree that hangs on many inputs yields its violation within a quarter of an hour. Absence of crashes cannot be established by sampling.",
    design="DESIGN.md §3 C01"),
  "C02": dict(
    level="fault_enumeration",
@@ -167,7 +167,7 @@ def main():
       ],
       "checks": checks,
       "not_applicable": na,
-      "notes": "All checks: ./check <ID> --tier quick|thorough rebuilds the CLI and the harness from /repo's working tree, honours VERIF_SEED, writes /verif/evidence/<ID>.json. Exit 2 = infrastructure failure (build error, watchdog on a run or a single case that does not return), never a verdict. known_findings.json lists repaired (fixed:) and recorded (known) defects.",
+      "notes": "All checks: ./check <ID> --tier quick|thorough rebuilds the CLI and the harness from /repo's working tree, honours VERIF_SEED, writes /verif/evidence/<ID>.json. Exit 2 = infrastructure failure (build error, watchdog on a run or a single case that does not return: 150 s for a case that only calls library code, 900 s for one that runs the binary), never a verdict. Quick runs stop starting new generated cases after a soft deadline of 600 s (VERIF_SOFT_DEADLINE_S; runs take 2-110 s per check on the unchanged tree) and then judge what they explored; evidence coverage.budgets records whether that happened. known_findings.json lists repaired (fixed:) and recorded (known) defects.",
     }
     json.dump(m, open('/verif/MANIFEST.json','w'), indent=1)
     print("checks:", [c['property_id'] for c in checks], "na:", len(na))
